@@ -323,6 +323,16 @@ func (prop) Generate(rng *core.Rand, tier string, emit func(string)) {
 		c := genCase(rng, kk)
 		emit(c.encode())
 	}
+	// servers with more names than MatchHost's large-list threshold (100): the redirect route's
+	// host matcher is built by phase 1 and never provisioned, its lookup is then a binary search
+	nbig := 3
+	if tier == "thorough" {
+		nbig = 12
+	}
+	bigr := rng.Fork()
+	for i := 0; i < nbig; i++ {
+		emit(genBig(bigr))
+	}
 	// the Caddyfile adapter's part: auto_https option, schemes and ports -> Listen / AutoHTTPS / host matchers
 	ncf := n / 3
 	cfr := rng.Fork()
@@ -410,4 +420,42 @@ func init() {
 	mk([]string{"a.test"}, func(c *kase) {
 		c.servers = []server{{name: "s0", listen: []addr{{0, "", 443, 443}}, tls: 2, routes: []uroute{{}}}}
 	})
+}
+
+// genBig: one site server on a non-standard port with 105-130 names of different lengths (and a
+// wildcard), split over a few routes; sometimes the user's own HTTP server with a catch-all.
+func genBig(rng *core.Rand) string {
+	c := &kase{k: 2, names: []nameInfo{{s: ""}}}
+	n := 105 + rng.Intn(26)
+	stems := []string{"n", "tenant-", "t", "very-long-customer-name-", "x", "ab", "svc", "zz9-"}
+	tails := []string{".big.test", ".b.test", ".example.com", ".io.test"}
+	seen := map[string]bool{}
+	for len(c.names) < 1+n {
+		s := rng.Pick(stems) + strconv.Itoa(rng.Intn(2000)) + rng.Pick(tails)
+		if rng.Chance(1, 60) {
+			s = "*." + strconv.Itoa(rng.Intn(50)) + ".w.test"
+		}
+		if !seen[s] {
+			seen[s] = true
+			c.names = append(c.names, nameInfo{s: s})
+		}
+	}
+	c.fillFlags()
+	port := []int{8443, 9443, 7443}[rng.Intn(3)]
+	s0 := server{name: "s0", listen: []addr{{0, "", port, port}}}
+	per := 1 + rng.Intn(3)
+	for r := 0; r < per; r++ {
+		var hm []int
+		for d := 1; d < len(c.names); d++ {
+			if d%per == r {
+				hm = append(hm, d)
+			}
+		}
+		s0.routes = append(s0.routes, uroute{hms: [][]int{hm}})
+	}
+	c.servers = []server{s0}
+	if rng.Chance(1, 2) {
+		c.servers = append(c.servers, server{name: "s1", listen: []addr{{0, "", 80, 80}}, routes: []uroute{{}}})
+	}
+	return c.encode()
 }
